@@ -4,7 +4,7 @@ from __future__ import annotations
 import ast
 from typing import Any, Dict, List, Optional
 
-from .fdvalues import (BoundExt, ClassVal, CoroVal, EnumVal, ExtVal, FuncVal, GatherVal, Obj, Opaque, PyRaise, Ready,
+from .fdvalues import (is_one_shot, one_shot, BoundExt, ClassVal, CoroVal, EnumVal, ExtVal, FuncVal, GatherVal, Obj, Opaque, PyRaise, Ready,
                        StrT, strt_concat)
 from .report import Unsupported
 from .srcmodel import ClassDef, FuncDef, dotted, norm, walk_shallow
@@ -737,6 +737,8 @@ class CallMixin:  # pylint:disable=too-many-public-methods
                         return getattr(r, a)(*args)
                     except ValueError as err:
                         self.raise_(type(err).__name__, str(err))
+            if a == "translate" and len(args) == 1 and isinstance(args[0], dict) and all(isinstance(k_, int) and (isinstance(v_, (str, int)) or v_ is None) for k_, v_ in args[0].items()):
+                return r.translate(args[0])
             if a == "join":
                 items = self.iterate(args[0], node, frame)
                 acc: Any = ""
@@ -869,10 +871,32 @@ class CallMixin:  # pylint:disable=too-many-public-methods
                 return dict(r)
         if isinstance(r, tuple) and a in ("count", "index"):
             return getattr(r, a)(*args)
-        if isinstance(r, set):
-            if a == "add":
+        if isinstance(r, (set, frozenset)):
+            if a == "add" and isinstance(r, set):
                 r.add(self.hashable(args[0], node, frame))
                 return None
+            if a == "pop" and isinstance(r, set):
+                if not r:
+                    raise PyRaise(self.exc("builtins.KeyError", "pop from an empty set"))
+                if len(r) == 1:
+                    return r.pop()
+                raise Unsupported("set.pop() on a set with several elements (arbitrary element)")
+            if a in ("discard", "remove") and isinstance(r, set):
+                k_ = self.hashable(args[0], node, frame)
+                if a == "remove" and k_ not in r:
+                    raise PyRaise(self.exc("builtins.KeyError", k_))
+                r.discard(k_)
+                return None
+            if a in ("update", "intersection_update", "difference_update") and isinstance(r, set):
+                for o_ in args:
+                    getattr(r, a)(set(self.hashable(x_, node, frame) for x_ in self.iterate(o_, node, frame)))
+                return None
+            if a == "clear" and isinstance(r, set):
+                r.clear()
+                return None
+            if a in ("union", "intersection", "difference", "symmetric_difference", "issubset", "issuperset", "isdisjoint", "copy"):
+                others = [set(self.hashable(x_, node, frame) for x_ in self.iterate(o_, node, frame)) for o_ in args]
+                return getattr(r, a)(*others)
         if isinstance(r, Obj) and r.cls in ("lark.Tree",):
             return self.tree_method(r, a, args, kwargs, node, frame)
         if isinstance(r, Obj) and r.cls in self.model.classes and "typing.NamedTuple" in self.model.mro(r.cls):
@@ -1057,9 +1081,9 @@ class CallMixin:  # pylint:disable=too-many-public-methods
 
         if a == "scan_values":
             pred = args[0]
-            return [x for x in leaves(tree) if self.truth(self.call(pred, [x], {}, node, frame))]
+            return one_shot([x for x in leaves(tree) if self.truth(self.call(pred, [x], {}, node, frame))])  # a generator in lark
         if a == "iter_subtrees":
-            return list(subtrees(tree))
+            return one_shot(subtrees(tree))  # lark returns a one-shot reversed(...) iterator
         if a == "copy":
             return Obj("lark.Tree", {"data": tree.fields.get("data"), "children": tree.fields.get("children")})
         raise Unsupported(f"Tree.{a}")
@@ -1069,6 +1093,13 @@ class CallMixin:  # pylint:disable=too-many-public-methods
         if name in self.ext_handlers:
             return self.ext_handlers[name](self, args, kwargs)
         short = name[9:] if name.startswith("builtins.") else name
+        if name in ("builtins.str.maketrans",):
+            if all(isinstance(a_, (str, dict)) or a_ is None for a_ in args) and not kwargs:
+                try:
+                    return dict(str.maketrans(*args))
+                except (ValueError, TypeError) as err_:
+                    self.raise_(type(err_).__name__, str(err_))
+            raise Unsupported("str.maketrans on non-literal arguments")
         if name == "builtins.dict.fromkeys":
             val = args[1] if len(args) > 1 else None
             return {self.hashable(k, node, frame): val for k in self.iterate(args[0], node, frame)}
@@ -1108,6 +1139,8 @@ class CallMixin:  # pylint:disable=too-many-public-methods
             v = args[0]
             if isinstance(v, (list, tuple, dict, set, str)):
                 return len(v)
+            if is_one_shot(v):
+                self.raise_("TypeError", "object of type 'generator' has no len()")
             if isinstance(v, StrT):
                 key = ("len", repr(v))
                 if key not in self.attr_memo:
@@ -1122,14 +1155,14 @@ class CallMixin:  # pylint:disable=too-many-public-methods
             return self.to_str(args[0], node, frame, repr_mode=True)
         if short == "enumerate":
             start = args[1] if len(args) > 1 else kwargs.get("start", 0)
-            return [(i + start, x) for i, x in enumerate(self.iterate(args[0], node, frame))]
+            return one_shot([(i + start, x) for i, x in enumerate(self.iterate(args[0], node, frame))])
         if short == "zip":
             lists = [self.iterate(a, node, frame) for a in args]
-            return [tuple(t) for t in zip(*lists)]
+            return one_shot([tuple(t) for t in zip(*lists)])
         if short == "range":
             return list(range(*args))
         if short == "reversed":
-            return list(reversed(self.iterate(args[0], node, frame)))
+            return one_shot(reversed(self.iterate(args[0], node, frame)))
         if short == "sorted":
             return self.sorted_(self.iterate(args[0], node, frame), kwargs.get("key"), bool(kwargs.get("reverse", False)), node, frame)
         if short in ("any", "all"):
@@ -1153,10 +1186,10 @@ class CallMixin:  # pylint:disable=too-many-public-methods
             return best
         if short == "map":
             seqs = [self.iterate(a, node, frame) for a in args[1:]]
-            return [self.call(args[0], list(t), {}, node, frame) for t in zip(*seqs)]
+            return one_shot([self.call(args[0], list(t), {}, node, frame) for t in zip(*seqs)])
         if short == "filter":
             items = self.iterate(args[1], node, frame)
-            return [x for x in items if self.truth(self.call(args[0], [x], {}, node, frame) if args[0] is not None else x)]
+            return one_shot([x for x in items if self.truth(self.call(args[0], [x], {}, node, frame) if args[0] is not None else x)])
         if short == "callable":
             return isinstance(args[0], (FuncVal, ClassVal, ExtVal, BoundExt))
         if short == "sum":
@@ -1184,15 +1217,17 @@ class CallMixin:  # pylint:disable=too-many-public-methods
                 raise Unsupported("super() outside a method")
             return Obj("builtins.super", {"self": frame.vars.get(frame.fn.params[0]), "after": frame.fn.cls.qualname})
         if short == "iter":
-            return self.iterate(args[0], node, frame)
+            return args[0] if is_one_shot(args[0]) else one_shot(self.iterate(args[0], node, frame))
         if short == "next":
             items = args[0]
-            if isinstance(items, list):
-                if items:
-                    return items.pop(0)
+            if is_one_shot(items):
+                if items.fields["pos"] < len(items.fields["items"]):
+                    items.fields["pos"] += 1
+                    return items.fields["items"][items.fields["pos"] - 1]
                 if len(args) > 1:
                     return args[1]
                 self.raise_("StopIteration")
+            self.raise_("TypeError", f"'{self.class_of(items)}' object is not an iterator")
         if name == "itertools.chain.from_iterable":
             return [x for sub_ in self.iterate(args[0], node, frame) for x in self.iterate(sub_, node, frame)]
         if name == "itertools.compress":
